@@ -502,8 +502,15 @@ def _mask_from_complete_walk(ctx, run, f):
         if not t or "cond" not in t:
             continue
         # the list walk: its test reads the list link (`eh = *ehp`, `NULL != (eh = *ehp)`, `*ehp`, `eh`)
-        txt = ex.pretty(f, t["cond"])
-        if "ehp" not in txt and "->next" not in txt and "eh" not in txt:
+        # the list walk: its body (or test) reads the link field of a handler record
+        walks = False
+        for b2 in body:
+            for x in [i2 for i2 in f.blocks[b2].elems] + ([f.blocks[b2].term["cond"]] if f.blocks[b2].term and "cond" in f.blocks[b2].term else []):
+                for n2 in ex.walk(f, x):
+                    e2 = f.exprs[n2]
+                    if e2["k"] == "mem" and e2["member"] == "next" and "event_handler" in str(e2.get("in")):
+                        walks = True
+        if not walks:
             continue
         stay = [s2 for s2, lab in f.edges(head) if s2 in body]
         if not stay:
